@@ -79,7 +79,20 @@ def store(amounts):
             for i, a in enumerate(amounts)]
 
 
+SRC["big_datum_tight"] = """party Sender;
+party Receiver;
+tx transfer(quantity: Int) {
+    input source { from: Sender, min_amount: Ada(quantity) + fees, }
+    output { to: Receiver, amount: Ada(quantity), datum: [""" + ", ".join(["1234567890123"] * 60) + """], }
+}"""
+# templates resolved against a store of their own: exactly the quantity, so that round 1 (fee 0)
+# compiles and round 2 fails for lack of fees
+TIGHT = {"big_datum_tight"}
+
+
 def step(tname, q, amounts, rounds=3):
+    if tname in TIGHT:
+        amounts = [q]
     return {"source": SRC[tname], "tx": "transfer", "args": args(q), "store": store(amounts), "rounds": rounds}
 
 
@@ -196,7 +209,8 @@ def check_c05(tier, seed):
     quick = tier == "quick"
     design(rep, quick)
     rng = random.Random(seed)
-    pp = [(44, 155381, None), (1, 2, None), (0, 0, 0), (1000, 1000000, 5), (44, 155381, 0)]
+    # incl. parameter sets with a small fee (2- and 3-byte CBOR fee field), where the payload can shrink between rounds
+    pp = [(44, 155381, None), (1, 2, None), (0, 0, 0), (1000, 1000000, 5), (44, 155381, 0), (44, 1000, 0), (1, 2, 0)]
     if not quick:
         pp += [(7, 0, None), (500, 10, 123456), (999, 999999, None), (2, 155381, 1)]
     tnames = ["transfer", "transfer_nofee_min", "transfer_min"]
@@ -289,7 +303,7 @@ def check_c20(tier, seed):
     core.build_driver()
     quick = tier == "quick"
     design(rep, quick)
-    tpls = ["out0", "out1", "out3_min2", "out5", "transfer", "transfer_min", "fail"]
+    tpls = ["out0", "out1", "out3_min2", "out5", "transfer", "transfer_min", "fail", "big_datum_tight"]
     targets = ["transfer_min", "out3_min2", "transfer", "out1", "fail"]
     qq = lambda xs: ", ".join('"%s"' % x for x in xs)  # noqa
     g = core.tlc_mc("MC_History", HIST_CFG.format(tpls=qq(tpls), targets=qq(targets), n=2 if quick else 3),
@@ -305,7 +319,7 @@ def check_c20(tier, seed):
     c = cfg(44, 155381, None)
     q = 2_000_000
     for case in g.cases + extra:
-        for amounts in ([50_000_000], [3_000_000, 2**32 + 2_400_000]):
+        for amounts in ([50_000_000], [3_000_000, 2**32 + 2_400_000], [3_000_000]):
             names = list(case["hist"]) + [case["target"]]
             steps = [step(n, q, amounts) for n in names]
             jobs.append({"id": len(jobs), "cmd": "resolve", "cfg": c, "steps": steps, "compare_fresh": True})
